@@ -9,6 +9,7 @@ CONSTANTS
   Confs <- ConfsAll
   Stores <- StoresQuick
   Ancs <- AncsTs
+  SrcPorts <- SrcPortsAll
   RestoreAtTop = TRUE
-CONSTRAINTS GenQuick GenStop
+CONSTRAINTS GenQuick GenStop PortsGen
 INVARIANTS Emit
